@@ -199,33 +199,49 @@ def r2_effect_kinds(ctx, F):
                                     wb = True
                         if wb:
                             dec.append(i)
-            for sw in g.switches:
-                if sw.bb in blocks and sw.on.kind == 'bin' and sw.on.key[0] == 'Eq':
-                    ops = sw.on.key[1:]
-                    if any(o.kind == 'const' and o.key == 1 for o in ops):
-                        te = sw.edges_for(True)
-                        if rm_g and te and g.edges_dominate(te, rm_g[0].bb, frm=[sw.bb]):
-                            eq1 = True
+            # the entry is removed exactly when the count is 1 (`v == 1`, `v != 1 {} else {..}`, ...)
+            one_edges = [e for (bb_, es) in edges_where(g, lambda v: True,
+                                                        lambda v: noref(v).kind == 'const' and noref(v).key == 1, 'eq',
+                                                        with_blocks=True) if bb_ in blocks for e in es]
+            if rm_g and one_edges and g.edges_dominate(one_edges, rm_g[0].bb):
+                eq1 = True
         ctx.check(len(rmv) == 1 and len(dec) == 1 and eq1, rule, 'nondup-removes-one-copy@%s' % fn.path.split('::')[-1], fn,
                   good='one copy is removed: entry dropped at count 1, otherwise count - 1',
                   bad='%s on UnorderedNonDuplicating does not remove exactly one copy (entry removal when '
                       'count == 1: %s, decrement by one written back to the entry: %d site(s))' % (fn.path, eq1, len(dec)))
-    # send on non-duplicating increments
-    cs, blocks = arm_calls(F, sd, ssd, 'UnorderedNonDuplicating')
+    # send on non-duplicating increments (read in normal form: `*e.or_insert(0) += 1` and
+    # `e.and_modify(|n| *n += 1).or_insert(1)` are the same update)
+    sn = F.norm(sd)
+    ssn = self_variant_switch(sn)
+    cs, blocks = arm_calls(F, sn, ssn, 'UnorderedNonDuplicating')
     inc = []
-    for (i, si, st) in sd.assigns(lambda st: st['rv']['k'] == 'bin' and st['rv']['op'] in ('AddWithOverflow', 'Add')):
+    for (i, si, st) in sn.assigns(lambda st: st['rv']['k'] == 'bin' and st['rv']['op'] in ('AddWithOverflow', 'Add')):
         if i in blocks:
-            one = sd.val(st['rv']['b'])
+            one = sn.val(st['rv']['b'])
             if one.kind == 'const' and one.key == 1:
                 inc.append(i)
     ins = [c for c in cs if c.is_('HashMap::insert', 'HashableHashMap::insert', 'Entry::insert', 'Entry::insert_entry')]
     ori = [c for c in cs if c.is_('Entry::or_insert', 'Entry::or_default', 'Entry::or_insert_with')]
-    zero = bool(ori) and (len(ori[0].args) < 2 or (sd.val(ori[0].args[1]).kind == 'const' and sd.val(ori[0].args[1]).key == 0))
+    dflt = None
+    if ori:
+        dflt = 0 if len(ori[0].args) < 2 else (sn.val(ori[0].args[1]).key if sn.val(ori[0].args[1]).kind == 'const' else None)
+    starts = [e[1] for e in ssn.edges_for('UnorderedNonDuplicating')]
+    if dflt == 0:
+        # starts from 0: the increment is on every path
+        zero = bool(inc) and not any(x in sn.reach(starts, cut_blocks=inc) for x in sn.returns)
+    elif dflt == 1:
+        # starts from 1 when absent: the increment runs exactly when the entry was occupied
+        occ = [e for sw in sn.switches if sw.kind == 'variant' and sw.bb in blocks for e in sw.edges_for('Occupied')]
+        zero = bool(inc) and bool(occ) and all(sn.edges_dominate(occ, i) for i in inc) and \
+            not any(x in sn.reach([e[1] for e in occ], cut_blocks=inc) for x in sn.returns)
+    else:
+        zero = False
     ctx.check(len(inc) == 1 and not ins and zero, rule, 'nondup-send-increments', sd,
               good='send on a non-duplicating network adds one to the multiplicity (starting from 0)',
               bad='Network::send on UnorderedNonDuplicating does not increment the multiplicity of the '
-                  'envelope by one (increments: %d, overwriting inserts: %s, default 0: %s): a second copy '
-                  'of a message is lost or invented' % (len(inc), [c.short for c in ins], zero))
+                  'envelope by one (increments: %d, overwriting inserts: %s, default of a new entry: %s): a second copy '
+                  'of a message is lost or invented' % (len(inc), [c.short for c in ins], dflt))
+    nondup_sites = [c.bb for c in ori]
     # send on duplicating inserts the envelope
     cs, blocks = arm_calls(F, sd, ssd, 'UnorderedDuplicating')
     ins = [c for c in cs if c.is_('HashSet::insert', 'HashableHashSet::insert')]
@@ -233,10 +249,11 @@ def r2_effect_kinds(ctx, F):
               good='send on a duplicating network inserts the envelope',
               bad='Network::send on UnorderedDuplicating does not insert the sent envelope')
     # ... on every path: a sent message is in the network afterwards, whatever was delivered before
-    for variant, sites in (('UnorderedDuplicating', [c.bb for c in ins]), ('UnorderedNonDuplicating', inc)):
-        starts = [e[1] for e in ssd.edges_for(variant)]
-        r = sd.reach(starts, cut_blocks=sites) if starts and sites else set(sd.returns)
-        ctx.check(bool(sites) and not any(x in r for x in sd.returns), rule, 'send-always-adds@%s' % variant, sd,
+    for variant, sites, g_, sw_ in (('UnorderedDuplicating', [c.bb for c in ins], sd, ssd),
+                                    ('UnorderedNonDuplicating', nondup_sites, sn, ssn)):
+        starts = [e[1] for e in sw_.edges_for(variant)]
+        r = g_.reach(starts, cut_blocks=sites) if starts and sites else set(g_.returns)
+        ctx.check(bool(sites) and not any(x in r for x in g_.returns), rule, 'send-always-adds@%s' % variant, sd,
                   good='send on %s adds the envelope on every path' % variant,
                   bad='Network::send on %s can return without adding the envelope (the insertion is conditional): '
                       'a sent message is in flight on some histories and silently missing on others, so it is '
